@@ -27,6 +27,10 @@ func features() sqlgen.Features {
 	f.UnaryMinus = hx.Allowed("c03.unary_minus")
 	f.LowerCompound = hx.Allowed("c03.lowercase_compound_keyword")
 	f.QuantifierCase = hx.Allowed("c03.quantifier_case")
+	f.Merge = hx.Allowed("c03.merge")
+	f.DDL = hx.Allowed("c03.ddl")
+	f.QuotedDDLNames = hx.Allowed("c03.ddl_quoted_names")
+	f.IndexNulls = hx.Allowed("c03.index_nulls")
 	return f
 }
 
@@ -80,13 +84,26 @@ func classes(st sqlgen.Stmt) (bool, string, []string) {
 
 func TestTreeIsPrescribed(t *testing.T) {
 	hx.Rule("tree_is_prescribed", "G-SQL statements (model tree drawn first, text rendered with required and random redundant parentheses and random keyword case); gosqlx.Parse must accept and the tree must dump equal to the model tree; non-trivial = needs a precedence parenthesis, or has a nested query, or mixes arithmetic with AND/OR, or uses >= 6 grammar features; distinct = statement kind + feature set + shape hash")
-	treeCheck.Rapid(t, hx.N(120000, 1200000), func(rt *rapid.T) TreeCase {
+	gen := func(rt *rapid.T) TreeCase {
 		g := sqlgen.New(rt, features())
 		st := sqlgen.Statement(g)
 		sql := sqlgen.SQL(st.Toks)
 		nt, key, cl := classes(st)
-		hx.Case("tree_is_prescribed", nt, key+fmt.Sprint(len(st.Toks)), append(cl, "kind_"+st.Kind)...)
-		hx.Sample("tree_is_prescribed", sql)
+		if !hx.Surveying() {
+			hx.Case("tree_is_prescribed", nt, key+fmt.Sprint(len(st.Toks)), append(cl, "kind_"+st.Kind)...)
+			hx.Sample("tree_is_prescribed", sql)
+		}
 		return TreeCase{SQL: sql, Want: astdump.Dump(st.Node)}
-	})
+	}
+	if hx.Surveying() {
+		treeCheck.Survey(t, 40000, gen, func(c TreeCase) int { return len(c.SQL) }, func(err error) string {
+			s := err.Error()
+			if len(s) > 110 {
+				s = s[:110]
+			}
+			return s
+		})
+		return
+	}
+	treeCheck.Rapid(t, hx.N(120000, 1200000), gen)
 }
